@@ -130,7 +130,8 @@ Definition INV (proc : list nat) (st : sstate) : Prop :=
   (forall u, In u proc -> 0 <= sd st u <= maxDepth /\
      match sb st u with
      | None => sd st u = 0
-     | Some b => In b proc /\ sd st u = sd st b + 1 /\ so_typ (obj_at objs b) = so_typ (obj_at objs u)
+     | Some b => In b proc /\ sd st u = sd st b + 1 /\ so_typ (obj_at objs b) = so_typ (obj_at objs u) /\
+                 deltable (so_typ (obj_at objs u)) = true
      end) /\
   (forall u, 0 <= sz st u).
 
@@ -145,8 +146,9 @@ Proof.
   assert (Hcases : same_except t st st' /\ 0 <= sz st' t /\
             ((sb st' t = None /\ sd st' t = 0) \/
              exists b, In b proc /\ so_typ (obj_at objs b) = so_typ (obj_at objs t) /\
+                       deltable (so_typ (obj_at objs t)) = true /\
                        sb st' t = Some b /\ sd st' t = sd st b + 1 /\ sd st b < maxDepth)).
-  { unfold st'. destruct (negb (deltable (so_typ (obj_at objs t)))).
+  { unfold st'. destruct (negb (deltable (so_typ (obj_at objs t)))) eqn:Edel.
     - split; [apply same_except_refl|]. split; [apply Hz|]. left. auto.
     - destruct (inner_spec t (firstn (window - 1) before) st (Hz t)) as [S [Z C]].
       split; [exact S|]. split; [exact Z|].
@@ -155,7 +157,7 @@ Proof.
       + right. assert (Hbp : In b proc) by (apply Hinc; eapply In_firstn; exact Hin).
         assert (Hne : b <> t) by (intros ->; contradiction).
         destruct (Hs b Hne) as [_ [Hsd _]]. rewrite Hsd in Hd, Hm.
-        exists b. auto. }
+        exists b. apply negb_false_iff in Edel. auto 10. }
   destruct Hcases as [S [Z C]].
   split; [|split].
   - intros u Hu. assert (Hne : u <> t) by (intros ->; apply Hu; apply in_or_app; right; now left).
@@ -164,10 +166,10 @@ Proof.
   - intros u Hu. apply in_app_or in Hu. destruct Hu as [Hu|[<-|[]]].
     + assert (Hne : u <> t) by (intros ->; contradiction).
       destruct (S u Hne) as [E1 [E2 _]]. rewrite E1, E2. destruct (Hb u Hu) as [Hr Hm]. split; [exact Hr|].
-      destruct (sb st u) as [b|]; [|exact Hm]. destruct Hm as [M1 [M2 M3]].
+      destruct (sb st u) as [b|]; [|exact Hm]. destruct Hm as [M1 [M2 [M3 M4]]].
       assert (Hbn : b <> t) by (intros ->; contradiction).
       destruct (S b Hbn) as [_ [E3 _]]. rewrite E3. split; [apply in_or_app; now left | auto].
-    + destruct C as [[C1 C2]|[b [Hbp [Hty [C1 [C2 C3]]]]]].
+    + destruct C as [[C1 C2]|[b [Hbp [Hty [Hdl [C1 [C2 C3]]]]]]].
       * rewrite C1, C2. pose proof maxDepth_pos. split; [lia | reflexivity].
       * rewrite C1, C2. destruct (Hb b Hbp) as [Hr _].
         assert (Hbn : b <> t) by (intros ->; contradiction).
